@@ -118,14 +118,15 @@ func (w *World) Raw() []byte { b, _ := w.Parts.Bytes(); return b }
 // Options returns fresh verification options for a level (fresh getter log).
 func (w *World) Options(level int) *verify.Options {
 	now := w.Now
-	w.Getter = w.Getter.Clone()
 	return &verify.Options{GetCollateral: level >= L1, CheckRevocations: level >= L2,
-		Getter: w.Getter, Now: &now, TrustedRoots: w.Roots}
+		Getter: w.Getter.Clone(), Now: &now, TrustedRoots: w.Roots}
 }
 
 // Verify runs verify.RawTdxQuote at level, converting a panic into PanicError.
 func (w *World) Verify(level int) error {
-	return SafeVerifyRaw(w.Raw(), w.Options(level))
+	o := w.Options(level)
+	w.Getter = o.Getter.(*Getter) // keep the log of this call visible (not for concurrent use)
+	return SafeVerifyRaw(w.Raw(), o)
 }
 
 // PanicError reports a recovered panic.
